@@ -127,6 +127,14 @@ def obligations(tier, rng):
         for mode in ('offline', 'online'):
             out.append(ob('C12', 'dt', 'dt/%s/dup/out=%s' % (mode, text(m)), defs=[['p', ('since', X, Y)]] if refsem.has(m, set()) or 'p' in variables(m) else [],
                           main=m, N=N, mode=mode))
+    # traces shorter than a future bound: the operand's stored signal must stay one value per sample
+    for d in [('geq', X, ('const', 3.0)), ('once_t', X, 0, 1)]:
+        for m in [('eventually_t', P, 0, 5), ('always_t', P, 2, 5), ('until_t', P, Z, 0, 4), ('and', ('eventually_t', P, 1, 4), P)]:
+            for Ns in (2, 4):
+                out.append(ob('C12', 'dt', 'dt/offline/short/p=%s/out=%s/N=%d' % (text(d), text(m), Ns), defs=[['p', d]], main=m, N=Ns, mode='offline'))
+    for m in [('eventually_t', X, 0, 5), ('always_t', X, 1, 5), ('or', ('eventually_t', X, 2, 5), ('always_t', Y, 0, 3))]:
+        for Ns in (1, 3):
+            out.append(ob('C12', 'dt', 'dt/offline/short-var/out=%s/N=%d' % (text(m), Ns), defs=[], main=m, N=Ns, mode='offline'))
     # different horizons of sub-spec and main
     for d, m in [(('eventually_t', X, 0, 1), ('and', P, ('eventually_t', Y, 0, 3))), (('next', X), ('or', P, ('always_t', Y, 1, 2))),
                  (('once_t', X, 0, 1), ('and', P, ('eventually_t', Y, 0, 2)))]:
